@@ -14,10 +14,13 @@ is `dedup`.  The driver compares results as sorted lists.
 -/
 namespace QV.C26
 
-/-- `Qubit` (quil-rs/src/instruction/qubit.rs) without placeholders (they compare by address). -/
+/-- `Qubit` (quil-rs/src/instruction/qubit.rs).  A placeholder is identified by the address of its
+`Arc` (`Eq`/`Hash`/`Ord` all go through `address()`); the harness numbers the distinct placeholders of a
+case by first occurrence, so `ph k = ph k'` iff they are the same `Arc`. -/
 inductive Qubit where
   | fixed (n : Nat)
   | var (s : String)
+  | ph (k : Nat)
   deriving DecidableEq, Repr
 
 /-- `FrameIdentifier { name, qubits }`: `Eq`/`Hash` are derived, so the qubit *list* (order,
